@@ -2,6 +2,7 @@
 stdin: {"jobs": [{id, source, filename, vectors: [vec...], seeds: [...], unparse: bool}]}
 stdout: [{id, base: summary, layouts: [summary...], used: [vec...], discarded: n}]"""
 import ast
+from vlib import astpos  # noqa
 import io
 import json
 import sys
@@ -55,7 +56,7 @@ def summarise(source, filename):
     from supp.util import Source, get_name_usages, np
     from supp.name import MultiName, UndefinedName, RuntimeName
     project = Project(['/nonexistent-verif-root'])
-    tree = ast.parse(source)
+    tree = astpos.parse(source)
     loads = [n for n in ast.walk(tree) if isinstance(n, ast.Name) and isinstance(n.ctx, ast.Load)]
     read_ord = {(n.lineno, n.col_offset): i for i, n in enumerate(loads)}
     btab = binding_table(source, tree)
